@@ -8,7 +8,9 @@ TRUSTED_BASE = [
     "Go toolchain, go-ipld-prime, go-ipfs-pq, go-peertaskqueue, libp2p: outside the model",
 ]
 
-HOOK_COMMITS = ['95b4529 verif hooks: expose link tracker map sizes (build tag verif)']
+HOOK_COMMITS = ['95b4529 verif hooks: expose link tracker map sizes (build tag verif)',
+                'e1cc3da verif hooks: expose queued builder block sizes (build tag verif)',
+                'bfc4b1d verif hooks: count non-empty queued builders (build tag verif)']
 NOT_YET = {}
 
 PROPS = {
@@ -55,6 +57,16 @@ PROPS = {
         level_note="Kernel-checked over traversal plans; that go-ipld-prime's engine behaves as a plan (depth-first, skip prunes the subtree, budget checked before each load) is validated by the trace comparison, not proved. effective_budget is a hand transcription of the two server.go sites, checked by the whole-stack grid.",
         trusted=["go-ipld-prime traversal engine (checkLinkBudget, SkipMe) outside the model; compared by traces", "whole-stack grid uses the libp2p mocknet"],
         assumptions=["the store answers each link load once per traversal step (Advance / Error)"],
+    ),
+    'C15': dict(
+        driver='msgqueue', monitors=['MON15'], proof_files=['MsgQueueProofs.v'],
+        level_text="Theorem C15_accounting: for every history of response-assembler transactions (blocks, extension data, statuses, any requests, any split over messages), network outcomes (connect/send ok or failing, retries exhausted, initial connect failure), shutdowns and select choices, in every state where the queue goroutine is parked the peer's accounted memory equals exactly the block bytes of the queued builders plus those of the message in flight; idle implies nothing with content queued and zero accounted; exited implies nothing queued and zero accounted. C15_build_reservation: one transaction returns at once whatever part of its reservation did not become queued block bytes (all of it when refused). C15_monitor: the executable monitor accepts every model history. The model (message builder, scrubbing, retry loop, drain, shutdown) is run against the real MessageQueue + Allocator + ResponseAssembler with a scripted network each run, comparing accounted memory, every queued builder's size, phase, wire contents and per-request events after every label; the same monitor is evaluated on the implementation's observations.",
+        level_note="Partial in one respect: the allocator is reduced to the peer's running total (limits far away), so 'never queued without a successful reservation' is only covered for non-blocking reservations; blocking/refused allocations belong to C13/C14/C25. Interleavings are explored at the granularity of parked states: a label is applied while the queue goroutine is parked (idle, inside a scripted network call, or exited) and the goroutine then runs until it parks again; builds racing with a running goroutine are represented by the select-choice hints only.",
+        trusted=["verif hooks VerifQueuedBlockSizes / VerifQueuedNonEmpty (add-only, build tag verif)",
+                 "harness detects that the queue goroutine is parked by inspecting goroutine stacks (runtime.Stack), and releases one scripted network call per LNet label",
+                 "dag-cbor EncodedLength gives the extension size the response builder reserves"],
+        assumptions=["allocator limits are not reached (1 TiB limits in the harness)", "labels are applied at parked states of the queue goroutine"],
+        drive_timeout=3000,
     ),
     'C17': dict(
         driver='peermgr', monitors=['MON17'], proof_files=['PeerMgrProofs.v'],
